@@ -9,7 +9,7 @@ import (
 )
 
 func init() {
-	register(&PropDef{ID: "C04", Level: "exploration", Gen: genC04, Check: checkC04, Valid: validC04})
+	register(&PropDef{ID: "C04", Stalls: true, Level: "exploration", Gen: genC04, Check: checkC04, Valid: validC04})
 }
 
 func genC04(r *Rnd, t Tier) *Case {
